@@ -1,7 +1,7 @@
 (* C18 at source level: MatrixCard::get_number_at_coordinates and
    MatrixCardVerifier::get_matrix_coordinates as TRANSLATED FROM src/matrix_card.rs on this run.
    Only statements; every proof is `exact` of a lemma from proofs/steps/. *)
-From WS Require Import lib.Bytes lib.Res lib.StepLoop Consts Steps model.Arr model.MatrixCard proofs.MatrixCard proofs.steps.Matrix.
+From WS Require Import lib.Bytes lib.Res lib.StepLoop Consts Steps spec.Select model.Arr model.MatrixCard proofs.MatrixCard proofs.steps.Matrix.
 Local Open Scope N_scope.
 
 (* the lookup returns the digits printed at row y, column x *)
@@ -20,5 +20,14 @@ Theorem C18_source_round : forall cc h w coords round,
   tr_matrix_get_matrix_coordinates cc h w coords round = res_opt (get_matrix_coordinates cc w h coords round).
 Proof. exact matrix_get_matrix_coordinates_translated. Qed.
 
+(* the challenged cells, as computed by the translated generate_coordinates *)
+Theorem C18_source_coordinates : forall w h count seed,
+  1 <= w * h <= 255 -> 1 <= count <= w * h -> seed < 2 ^ 64 ->
+  exists cs, tr_matrix_generate_coordinates w h count seed = Some cs /\
+             cs = select (N.to_nat count) seed (iota (N.to_nat (w * h))) /\
+             length cs = N.to_nat count /\ NoDup cs /\ Forall (fun c => c < w * h) cs.
+Proof. exact matrix_source_coordinates. Qed.
+
 Print Assumptions C18_source_lookup.
+Print Assumptions C18_source_coordinates.
 Print Assumptions C18_source_round.
